@@ -315,7 +315,7 @@ func c01Eval(c *Ctx, kind string, raw []byte) {
 			c.Nontrivial()
 		}
 		c.Dist("text:decoded")
-		ctlW := plainWire(ctl)
+		ctlW := plainWireK(ctl)
 		if plainHasNonStringKeys(ctl) {
 			// only: error or document, no panic, no lost scalar
 			c.Dist("text:non-string-keys")
